@@ -39,9 +39,9 @@ P = {
               'bh': {'type': 'bh_case', 'check': 'bh_mismatches', 'shard': 40}},
     'search': {'rounds': 2, 'n': 40},
     'rule': 'replicas: a case is one block history (quick 15 blocks / 2 replicas, thorough 40 blocks / 3 replicas; every 4th history '
-            'adds a replica in a separate OS process) generated as for C15 (really signed Cosmos and Ethereum transactions incl. '
+            'adds a replica in a separate OS process whose environment differs: TZ 14 h ahead, Turkish locale, no home directory; replica 1 runs with the access_list EVM tracer option) generated as for C15 (really signed Cosmos and Ethereum transactions incl. '
             'precompile call trees, gov, staking, slashing, vesting, liquid vesting, DAO, ERC20; absent validators, evidence, time steps '
-            'of seconds to days; occasionally the v1.7.5 upgrade) plus: complete CometBFT-like headers (so that stored headers hash), '
+            'of seconds to days and jumps into the hours around a new year; occasionally the v1.7.5 upgrade) plus: complete CometBFT-like headers (so that stored headers hash), '
             'staking HistoricalEntries drawn from {0,1,2,3,5,10000}, the environment-probe contract (harness/envprobe.go: BLOCKHASH of '
             'NUMBER-k for 13 fixed k up to 257 and of the heights in calldata, NUMBER, TIMESTAMP, COINBASE, CHAINID, BASEFEE, GASLIMIT, '
             'DIFFICULTY, SELFBALANCE, ORIGIN, GASPRICE; digest and every asked hash stored and returned) deployed by the first '
